@@ -107,6 +107,7 @@ pub fn fault_world() -> WorldSpec {
     w.push(crate::world::Entry::file("root/e/other", "OTHER"));
     w.push(crate::world::Entry::dir("root/e/sub"));
     w.push(crate::world::Entry::link("root/l", "d"));
+    w.push(crate::world::Entry::link("root/e/dangling", "/mnt/w/outside/nothing-here"));
     w.push(crate::world::Entry::file("outside/secret", "OUTSIDE-SECRET"));
     w
 }
@@ -129,6 +130,16 @@ pub fn fault_scenarios() -> Vec<OpSpec> {
         o(Op::CreateFile { path: s("d/precious"), flags: libc::O_RDWR | libc::O_TRUNC, mode: 0o600 }),
         o(Op::RemoveFile { path: s("l/precious") }),
         o(Op::RemoveDir { path: s("e/sub") }),
+        // creations onto names that exist (the reference refuses with EEXIST)
+        o(Op::Create { path: s("d/precious"), kind: CreateKind::File(0o644) }),
+        o(Op::Create { path: s("l"), kind: CreateKind::File(0o644) }),
+        o(Op::Create { path: s("e/sub"), kind: CreateKind::Dir(0o755) }),
+        o(Op::Create { path: s("d/precious"), kind: CreateKind::Fifo(0o644) }),
+        o(Op::Create { path: s("d/precious"), kind: CreateKind::Symlink(s("x")) }),
+        o(Op::Create { path: s("d/precious"), kind: CreateKind::Hardlink(s("e/other")) }),
+        o(Op::CreateFile { path: s("d/precious"), flags: libc::O_WRONLY | libc::O_EXCL, mode: 0o600 }),
+        o(Op::Create { path: s("e/dangling"), kind: CreateKind::File(0o644) }),
+        o(Op::Rename { src: s("d/src"), dst: s("e/dangling"), flags: 1 }),
     ]
 }
 
@@ -519,7 +530,7 @@ pub fn finalise(tier: &str, seed: u64, res: coord::CheckResult) -> i32 {
         tier,
         seed,
         "exploration",
-        "one evaluation = one single-entry operation (create of every inode kind, create_file, remove_file, remove_dir, rename with flags; Rust or C facade; decorated paths incl. trailing slash, final '.'/'..', through symlinks) executed by libpathrs on world A and by the reference procedure (split at the last '/', raw openat2(RESOLVE_IN_ROOT) of the parent, one raw *at call on the final name) on an identical world B; outcome errno and whole-world snapshots are compared after every operation; faulted phase: the same twins with seeded transient faults (3-12 % of the library's system calls, errnos from the per-call catalogue incl. ENOSYS/EINVAL for renameat2) - (and, for 14 canonical operations - rename with every flag, every create kind, create_file, remove_* - every (system call, errno of its catalogue) placement is enumerated) an operation that reports success although a call inside it failed must still have exactly the reference outcome and tree (an operation that fails under the fault ends the run: that is C10's subject); non-trivial = the operation succeeded (changed the tree); distinct = hash of (case, op index)",
+        "one evaluation = one single-entry operation (create of every inode kind, create_file, remove_file, remove_dir, rename with flags; Rust or C facade; decorated paths incl. trailing slash, final '.'/'..', through symlinks) executed by libpathrs on world A and by the reference procedure (split at the last '/', raw openat2(RESOLVE_IN_ROOT) of the parent, one raw *at call on the final name) on an identical world B; outcome errno and whole-world snapshots are compared after every operation; faulted phase: the same twins with seeded transient faults (3-12 % of the library's system calls, errnos from the per-call catalogue incl. ENOSYS/EINVAL for renameat2) - (and, for 23 canonical operations - rename with every flag, every create kind, create_file, remove_* - every (system call, errno of its catalogue) placement is enumerated) an operation that reports success although a call inside it failed must still have exactly the reference outcome and tree (an operation that fails under the fault ends the run: that is C10's subject); non-trivial = the operation succeeded (changed the tree); distinct = hash of (case, op index)",
         res,
         Map::new(),
         vec!["umask 022 in both worlds".into(), "the C wrappers' documented decoding of mknod mode words is part of the reference".into()],
